@@ -140,6 +140,18 @@ def run_impl(binary, scn, strace=None, inject=None, timeout=20, with_mtime=False
         argv = scn.get("argv")
         if argv is None:
             argv = opts_to_argv(scn["opts"])
+        # @CWD@ stands for the absolute path of the working directory (absolute names in argv and in patch texts)
+        argv = [a.replace("@CWD@", work) for a in argv]
+        if scn.get("abs_paths"):
+            for dp, _, fns in os.walk(work):
+                for fn in fns:
+                    fp = os.path.join(dp, fn)
+                    try:
+                        b = open(fp, "rb").read()
+                        if b"@CWD@" in b:
+                            open(fp, "wb").write(b.replace(b"@CWD@", work.encode()))
+                    except OSError:
+                        pass
         env = {"PATH": "/usr/bin:/bin", "TMPDIR": tmp, "LC_ALL": "C"}
         env.update(scn.get("env", {}))
         cmd = []
